@@ -2,6 +2,7 @@
 // @also C05
 // @engine B
 // @entry vfh_C13_padf
+// @shared_state_watch
 // @tier Q
 // @reach padf.done
 // @funcs padfstring
